@@ -8,6 +8,7 @@
 package ledgerops
 
 import (
+	ethcrypto "com.tuntun.rangers/node/src/eth_crypto"
 	"com.tuntun.rangers/node/src/middleware"
 	"com.tuntun.rangers/node/src/service"
 	"crypto/sha256"
@@ -40,7 +41,7 @@ const refundGap = 36000
 //
 //	0 forward CALLVALUE to target; 1 forward then REVERT; 2 SELFDESTRUCT(target); 3 CREATE child with CALLVALUE;
 //	4 CALL target with value = word2; 5 CREATE child with value = word2; 6 CALLCODE target with value = word2;
-//	7 UNSTAKE(self, word2); 8 STAKE(self, word2); 9 UNSTAKEALL(self)
+//	7 UNSTAKE(self, word2); 8 STAKE(self, word2); 9 UNSTAKEALL(self); 10 AUTH + AUTHCALL(target, value = word2)
 //
 // (assembled by buildRuntime)
 func BuildRuntime() []byte {
@@ -52,7 +53,7 @@ func BuildRuntime() []byte {
 	jumpi := func(l string) { emit(0x60, 0xff, 0x57); patches[l] = append(patches[l], len(code)-2) }
 	label := func(l string) { labels[l] = len(code); emit(0x5b) }
 	emit(0x60, 0x20, 0x35) // mode
-	for m, l := range []string{"", "", "sd", "cr", "cx", "crx", "ccx", "unst", "stk", "unall"} {
+	for m, l := range []string{"", "", "sd", "cr", "cx", "crx", "ccx", "unst", "stk", "unall", "auth"} {
 		if l != "" {
 			emit(0x80, 0x60, byte(m), 0x14)
 			jumpi(l)
@@ -83,6 +84,18 @@ func BuildRuntime() []byte {
 	emit(0x30, 0x60, 0x40, 0x35, 0xee, 0x50, 0x00)
 	label("unall")
 	emit(0x30, 0xeb, 0x50, 0x00)
+	// AUTH with a signature of an authority over (magic, chain id, this contract, commit) taken from
+	// the call data (words 3..6 = v, r, s, commit; word 7 = authority; word 8 = its nonce), then
+	// AUTHCALL(target = word0, value = word2): the value is paid by the transaction's origin
+	label("auth")
+	emit(0x60, 0x80, 0x60, 0x60, 0x60, 0x00, 0x37)                   // CALLDATACOPY(0, 0x60, 0x80)
+	emit(0x60, 0x80, 0x60, 0x00, 0x60, 0xe0, 0x35, 0xf6, 0x50)       // AUTH(authority, 0, 128)
+	emit(0x60, 0x00, 0x60, 0x00, 0x60, 0x00, 0x60, 0x00, 0x60, 0x00) // retLen retOff argsLen argsOff valueExt
+	emit(0x60, 0x40, 0x35)                                           // value
+	emit(0x60, 0x00, 0x35)                                           // addr
+	emit(0x62, 0x00, 0xc3, 0x50)                                     // gas 50000
+	emit(0x61, 0x01, 0x00, 0x35)                                     // authorized nonce = word 8
+	emit(0xf7, 0x50, 0x00)
 	for l, ps := range patches {
 		at, ok := labels[l]
 		if !ok || at > 255 {
@@ -355,6 +368,57 @@ func (w *World) Step(tr *vutil.Trace, o AbsOp, amount string, gas string) *execd
 		refundWant = want
 		d, _ := json.Marshal(map[string]string{"Amount": amt, "MinerId": common.ToHex(id)})
 		tx = execdrv.NewTx(types.TransactionTypeMinerRefund, src, "", string(d), "", w.seq, salt)
+	case "AuthCall":
+		// an authority (a key of the harness) authorises contract B; B then makes a call in the
+		// authority's name that carries value: V%3 = what the authority holds (nothing / less than the
+		// value / more), the value is "amount". In the same block, before it, the authority is funded
+		// accordingly. Whoever pays: nothing is created.
+		callee := w.addr[o.B]
+		target := w.addr[1+(o.B)%3]
+		val, _ := utility.StrToBigInt("0.75")
+		if (o.V/3)%2 == 1 {
+			// nearly everything the origin will have left after the flat fee: what remains does not
+			// cover the gas fee that is charged after the execution
+			val = new(big.Int).Set(w.St.GetBalance(common.HexToAddress(src)))
+			keep, _ := utility.StrToBigInt("0.00012")
+			val.Sub(val, keep)
+			if val.Sign() < 0 {
+				val.SetInt64(0)
+			}
+		}
+		fundAmt := []string{"", "0.25", "3"}[o.V%3]
+		auth := AuthorityAddr()
+		if fundAmt != "" {
+			fund, _ := json.Marshal(map[string]types.TransferData{auth.GetHexString(): {Balance: fundAmt}})
+			tx = execdrv.NewTx(types.TransactionTypeOperatorEvent, eoa[1+(o.A)%3], "", "", string(fund), w.seq, salt+"f")
+			w.seq++
+		}
+		commit := ethcrypto.Keccak256([]byte("verif-ledgerops-commit" + salt))
+		msg := make([]byte, 97)
+		msg[0] = 0x03
+		chain := common.GetChainId(w.height).Bytes()
+		copy(msg[33-len(chain):33], chain)
+		copy(msg[33+12:65], common.FromHex(callee))
+		copy(msg[65:], commit)
+		sig, err := ethcrypto.Sign(ethcrypto.Keccak256(msg), authorityKey)
+		if err != nil {
+			vutil.Fatalf("sign: %v", err)
+		}
+		abi := append(word(common.FromHex(target)), word([]byte{10})...)
+		abi = append(abi, word(val.Bytes())...)
+		abi = append(abi, word([]byte{sig[64]})...)
+		abi = append(abi, sig[0:32]...)
+		abi = append(abi, sig[32:64]...)
+		abi = append(abi, commit...)
+		abi = append(abi, word(auth.Bytes())...)
+		abi = append(abi, word(new(big.Int).SetUint64(w.St.GetNonce(auth)).Bytes())...)
+		call := execdrv.NewTx(types.TransactionTypeContract, src, callee, contractData(amount, abi, gas), "", w.seq, salt)
+		if tx == nil {
+			tx = call
+		} else {
+			tx2 = call
+		}
+		kind = fmt.Sprintf("AuthCall.%d.%s", o.V%3, []string{"part", "nearly-all"}[(o.V/3)%2])
 	case "ConStake":
 		// a miner whose account is a contract (the apply names it explicitly): only the contract's
 		// code can add to or take from that stake, through the node's STAKE / UNSTAKE opcodes
@@ -536,6 +600,11 @@ func (w *World) totalStake() uint64 {
 	}
 	return t
 }
+
+// the authority of the AUTH / AUTHCALL histories: a fixed key
+var authorityKey = ethcrypto.ToECDSAUnsafe(ethcrypto.Keccak256([]byte("verif-ledgerops-authority")))
+
+func AuthorityAddr() common.Address { return ethcrypto.PubkeyToAddress(authorityKey.PublicKey) }
 
 func NewWorld(n int) *World {
 	w := &World{St: execdrv.FreshState(), addr: map[int]string{}, isCon: map[int]bool{}, minerOf: map[int][]byte{}, stakeOf: map[int]int{}, n: n,
